@@ -196,7 +196,7 @@ def run(ctx):
         peer = Peer(fam)
         try:
             # 1. stacks 0-4
-            for i in range(ctx.pick(120, 10000)):
+            for i in range(ctx.pick(400, 10000)):
                 depth = rng.randint(0, 4)
                 dicts = [gen_dict(rng) for _ in range(depth)]
                 for j in range(2, depth):
